@@ -200,6 +200,17 @@ C08_Copy ==
         \A n \in CopyNames : HasTable(tables, n) /\
             TableOf(tables, n).lines = TableOf(tables, LastDef(src, "CopyDecay", n).src).lines
 
+\* growth: no CopyDecay / CDecay statement is dropped without a warning naming it, and none is both warned about and served
+NothingDroppedSilently ==
+    phase = "ready" =>
+        /\ \A n \in RangeOf(CopyKeys(src)) : (n \in W_CopyMiss(src)) # (\E i \in (NDecayTables(src) + 1)..Len(tables) : tables[i].m = n)
+        /\ incl => \A x \in CDNames(src) :
+               Cardinality({k \in 1..3 : CASE k = 1 -> x \in W_Both(src, incl)
+                                            [] k = 2 -> x \in W_ConjMiss(src, Base, incl)
+                                            [] k = 3 -> x \in ConjTargets(src, Base, TablesBeforeConj(src))}) = 1
+        /\ ~incl => Len(tables) = Len(TablesBeforeConj(src))
+        /\ (W_Redefined(src) = {}) <=> (Len(P_Find(src)) = Len(P_Dedup(P_Find(src))))
+
 \* conjugation (file-declared pairs + PDG pairs) is an involution on the universe
 ConjInvolution ==
     LET wfcc == \A n \in {"X", "Xb", "a", "ab", "c", "cb", "s"} :
